@@ -395,6 +395,7 @@ func initBtreeModels() {
 		terms, sorts := e.leaves(v.T, v.V)
 		f := "|ext." + sanitize("(time.Time).IsZero") + "|"
 		e.decl(fmt.Sprintf("(declare-fun %s (%s) Bool)", f, strings.Join(sorts, " ")))
+		e.timeZeroAxiom(v.T)
 		return TV{S("%s", app(f, terms...)), boolT}
 	}
 	// spec vocabulary
